@@ -152,6 +152,20 @@ pub open spec fn alt_ok(d: DocV) -> bool decreases d {
 /// W: the document carries exactly these words, in this order, whatever layout the renderer picks
 pub open spec fn w_ok(d: DocV, ws: Seq<Seq<char>>) -> bool { alt_ok(d) && words(d, false) == ws && words(d, true) == ws }
 
+// ===== S : a text that is present in every layout (C01: a separator that decides what the construct IS must not be lost) =====
+/// in every layout the renderer can choose -- both branches of every `FlatAlt` -- the document contains the text `s`
+pub open spec fn has_text(d: DocV, s: Seq<char>) -> bool decreases d {
+    match d {
+        DocV::Text(t) => t == s,
+        DocV::Cat(a, b) => has_text(*a, s) || has_text(*b, s),
+        DocV::Nest(_, x) => has_text(*x, s),
+        DocV::Group(x) => has_text(*x, s),
+        DocV::Align(x) => has_text(*x, s),
+        DocV::FlatAlt(b, f) => has_text(*b, s) && has_text(*f, s),
+        _ => false,
+    }
+}
+
 // ===== P : piece sequences for break-suppressed engines (C08 / C09): flatten Cat / Nil only =====
 pub open spec fn pieces(d: DocV) -> Seq<DocV> decreases d {
     match d {
